@@ -309,7 +309,7 @@ def evalSrc (db : DB) : Src → List Row
       let rrows := (evalSelect (evalSrc db r) rq rd).map (fun row => out.zip (rq.select.map row.get))
       -- positional UNION [ALL]
       let all := lrows ++ rrows
-      if distinct then all.eraseDups else all
+      if distinct then (normNumCols all).eraseDups else all
 
 /-- the exported frame of a compiled pipeline: labels of the select list, rows -/
 def run (db : DB) (c : Compiled) : List String × List (List Val) :=
